@@ -23,5 +23,23 @@ def plan(tier):
     return pl
 
 
+def real_part(tier):
+    """Real-process fault enumeration (engine R): every fault label x worker x cause on the
+    kill3 scenario, judged by the same property; also the conformance count: real outcomes
+    that belong to the outcome classes engine S produced for kills."""
+    from ..real import faults
+    out = faults.run_all(tier)
+    viols = []
+    fired = 0
+    for o in out:
+        fired += bool(o["fired"])
+        for sig, msg in o["violations"]:
+            viols.append(dict(signature=sig, msg=msg, plan=o["plan"], hooks=o["hooks"]))
+    return dict(count=len(out), fired=fired,
+                classes=sorted({repr(o["cls"]) for o in out}),
+                labels=[o["plan"]["label"] for o in out]), viols
+
+
 def main(tier):
-    return simcheck.run("C02", tier, plan(tier), ORACLE)
+    conf, viols = real_part(tier)
+    return simcheck.run("C02", tier, plan(tier), ORACLE, conformance=conf, extra_violations=viols)
